@@ -212,6 +212,82 @@ def rule_disp(S):
          loc=f.loc, path=res['path'])
 
 
+def rule_cache1(S):
+    """R-CACHE1: the one-element caches of the GC queues are written only when empty."""
+    facts = S.facts()
+    GC = Y + 'garbage_collection'
+    S.rule('R-CACHE1', 'garbage_collection::gc_node / gc_value: an element is parked in the one-element cache '
+                       '(cache_*_container_ = elem) only on a path on which the cache slot is established empty (its '
+                       'pointer tested null, or released and reset on this path); overwriting an occupied slot drops the '
+                       'only reference to a retired object, which is then never released - not even by fin()')
+    n = 0
+    for q in ('gc_node', 'gc_value'):
+        f = facts.one(GC + '::' + q)
+        sites = {}
+
+        def cache_of(nd):
+            """name of the cache member an expression is rooted in (through std::get<k>(member))"""
+            for x in f.walk(nd):
+                if x['k'] == 'MemberExpr' and (x.get('name') or '').startswith('cache_') and root_var(f, x) == 'this':
+                    return x['name']
+            return None
+
+        def step(ctx, nd, st):
+            st = dict(st)
+            lhs = rhs = None
+            if nd['k'] == 'BinaryOperator' and nd.get('op') == '=':
+                lhs, rhs = f.ch(nd)[0], f.ch(nd)[1]
+            elif nd['k'] == 'CXXOperatorCallExpr' and nd.get('cn') == 'operator=' and len(nd.get('args', [])) == 2:
+                lhs, rhs = f.node(nd['args'][0]), f.node(nd['args'][1])
+            if lhs is not None:
+                l = f.strip(lhs, casts=True)
+                c = cache_of(lhs)
+                if c is not None:
+                    whole = l is not None and l['k'] == 'MemberExpr'
+                    if whole:
+                        e = sites.setdefault('%s = <element> at %s' % (c, short_loc(nd)), {'ok': True, 'loc': short_loc(nd), 'path': None})
+                        if st.get(c) != 'empty':
+                            e['ok'] = False
+                            e['path'] = e['path'] or ctx.witness()
+                        st[c] = 'occupied'
+                    elif R.const_of(f, f.strip(rhs, casts=True)) == 'null':
+                        st[c] = 'empty'
+                    return tuple(sorted(st.items()))
+            if nd['k'] == 'ReturnStmt':
+                return None
+            return tuple(sorted(st.items()))
+
+        def branch(ctx, blk, idx, st):
+            t = blk.term
+            if t and 'cond' in t and len(blk.succ) == 2:
+                c = f.strip(f.node(t['cond']))
+                flip = False
+                while c is not None and c['k'] == 'UnaryOperator' and c.get('op') == '!':
+                    flip = not flip
+                    c = f.strip(f.ch(c)[0])
+                if c is not None and c['k'] == 'BinaryOperator' and c.get('op') in ('==', '!='):
+                    a, b = f.ch(c)[0], f.ch(c)[1]
+                    for x, y in ((a, b), (b, a)):
+                        m = cache_of(x)
+                        if m is not None and R.const_of(f, f.strip(y, casts=True)) == 'null':
+                            truth = (idx == 0) != flip
+                            isnull = truth if c['op'] == '==' else not truth
+                            d = dict(st)
+                            if d.get(m) == ('occupied' if isnull else 'empty') and False:
+                                return None
+                            d[m] = 'empty' if isnull else 'occupied'
+                            return tuple(sorted(d.items()))
+            return st
+
+        Explorer(f, step, branch).run(tuple())
+        for site, e in sorted(sites.items()):
+            n += 1
+            S.ob('R-CACHE1', f.qname, site, e['ok'], 'the slot is empty when the element is parked' if e['ok'] else
+                 'an element is parked in the cache although the slot may still hold a retired object on this path: that '
+                 'object is dropped without being released', loc=e['loc'], path=e['path'])
+    S.require('R-CACHE1', 'cache stores in gc_node / gc_value', n, 2)
+
+
 def rule_drain(S):
     facts = S.facts()
     S.rule('R-DRAIN', 'every data member of garbage_collection that push_* / gc_* write is emptied by '
@@ -443,6 +519,7 @@ def run(S):
     rule_own(S)
     rule_swap(S)
     rule_disp(S)
+    rule_cache1(S)
     from checks.C15 import rule_fslot
     rule_fslot(S)
     from checks.C13 import rule_atom
